@@ -249,6 +249,10 @@ type FactEngine struct {
 	sumBusy  map[string]bool
 	Depth    int // summary inlining bound
 
+	// extraTracked: module functions whose call counts as a tracked event (typestate atom
+	// c:<name>(<first argument>)), registered by identity rather than by name
+	extraTracked map[*ssa.Function]string
+
 	callSites map[*ssa.Function][]*ssa.Call
 	otherUse  map[*ssa.Function]bool
 	entryBusy map[*ssa.Function]bool
@@ -1511,6 +1515,11 @@ func (a *Alt) HasKey(kind string, t *Term, sign bool) bool {
 func (fe *FactEngine) trackedCallee(a *Alt, c *ssa.CallCommon) (string, *Term, bool) {
 	if c == nil {
 		return "", nil, false
+	}
+	if sc := c.StaticCallee(); sc != nil && fe.extraTracked != nil {
+		if name, ok := fe.extraTracked[sc]; ok && len(c.Args) >= 2 {
+			return name, fe.resolveWith(a, c.Args[1]), true
+		}
 	}
 	if o := calleeObj(c); o != nil {
 		switch o.Name() {
